@@ -221,6 +221,9 @@ def call(entry, text, flags=None, budget=None):
             state["ran"] = True
             if text_entry:
                 return lib._m("jaqalpaq.run.run").run_jaqal_string(X.PULSE_LINE + text)
+            if flags.get("shared_backend"):
+                # one backend object for every circuit of the process, whatever their registers
+                return lib.run(c, backend=X.shared_backend())
             return lib.run(c)
         return c
 
@@ -392,7 +395,7 @@ def random_flags(rng):
 def entries_for(rng, text):
     out = [("sexpr", None)]
     out.append(("parse", random_flags(rng)))
-    out.append(("run", {"native": True}))
+    out.append(("run", {"native": True, "shared_backend": True} if rng.random() < 0.5 else {"native": True}))
     if rng.random() < 0.2:
         out.append(("run", {}))  # a circuit parsed without any gate set handed to the emulator
     if rng.random() < 0.3:
